@@ -94,12 +94,19 @@ def main() -> int:
     byid = {t["id"]: (t, j) for t, j in zip(traces, jobs)}
     for v in bad:
         t, j = byid[v["id"]]
-        for b in sorted(v["bad"], key=lambda x: x["k"])[:1]:          # the first failing step names the operation
+        seen_new = set()
+        for b in sorted(v["bad"], key=lambda x: x["k"]):
+            # each step is charged only with the error signatures it introduces (an earlier step's errors persist in later verdicts)
             opname = t["steps"][b["k"] - 1]["op"] if b["at"] == "step" else "save"
-            sigs = sorted({n["sig"] + "@" + ("/".join(n["role"].split("/")[2:3]) or n["role"]) for n in b["new"]})
+            fresh = [n for n in b["new"] if (n["role"], n["sig"]) not in seen_new]
+            seen_new |= {(n["role"], n["sig"]) for n in b["new"]}
+            sigs = sorted({n["sig"] + "@" + ("/".join(n["role"].split("/")[2:3]) or n["role"]) for n in fresh})
+            only_clause = sorted(set(b["failing"]) - {"AllPartsValid", "RejectedKeepsValidity"})
+            if not sigs and not only_clause:
+                continue
             clause = "+".join(sorted(b["failing"]))
             for sg in (sigs or ["-"])[:4]:
-                rep.reject("%s@%s[%s|%s]" % (clause, opname, sg, j[2]),
+                rep.reject("%s@%s[%s|%s]" % (clause if sigs else "+".join(only_clause), opname, sg, j[2]),
                            {"module": "SlideOps", "id": v["id"], "kind": j[1], "prep": j[2], "ops": j[3], "failing": b},
                            "kind=%s prep=%s ops=%s step %d" % (j[1], j[2], j[3], b["k"]))
     unexpected = {}
